@@ -182,6 +182,10 @@ def check_file(case, ctx):
             cls = 'wide-count' if wide else ('keyword-name' if kwd else 'other')
             ctx.fail('C05.file/read-raises:%s:%s' % (type(e).__name__, cls), '%s (names %r)' % (e, [x['name'] for x in descs][:6]))
             return
+        want_type = {'list': list, 'tuple': tuple, 'dict': dict}[case['read_format']]
+        if not isinstance(back, want_type):
+            ctx.fail('C05.file/roundtrip:format', 'asked for a %s, got %s' % (case['read_format'], type(back).__name__))
+            return
         if case['read_format'] == 'dict':
             if len(back) != len(set(x['name'] for x in want)):
                 ctx.fail('C05.file/roundtrip:count', 'wrote %d species, dict has %d: %r' % (len(want), len(back), list(back)[:8]))
